@@ -9,7 +9,7 @@ run=$(jq -r .demonstration $d/meta.json | grep -o "\-run [^ ]*" | sed 's/-run //
 cp $d/demo_test.go.txt $wt/$dd/zz_seed_demo_test.go
 base=0; for i in 1 2; do (cd $wt && timeout 200 go test $race -vet=off -run "$run" -count=1 -timeout 120s ./$dd >/dev/null 2>&1) && base=$((base+1)); done
 rm $wt/$dd/zz_seed_demo_test.go
-(cd $wt && git apply $d/patch.diff) || { echo "$s patch-fail"; git -C /repo worktree remove --force $wt; exit 1; }
+(cd $wt && git apply $( [ -f $d/patch.head.diff ] && echo $d/patch.head.diff || echo $d/patch.diff )) || { echo "$s patch-fail"; git -C /repo worktree remove --force $wt; exit 1; }
 suite=0; (cd $wt && timeout 600 go test -vet=off -count=1 ./... >/dev/null 2>&1) && suite=1
 cp $d/demo_test.go.txt $wt/$dd/zz_seed_demo_test.go
 fail=0; for i in 1 2; do (cd $wt && timeout 200 go test $race -vet=off -run "$run" -count=1 -timeout 120s ./$dd >/dev/null 2>&1) || fail=$((fail+1)); done
